@@ -2133,7 +2133,9 @@ def range_for_ptrref(
 
     set_ops = []
 
-    for component_ref in component_refs:
+    # (component_refs is a set: fix the order of the UNION arms, so that
+    # the generated SQL does not vary between compilations.)
+    for component_ref in sorted(component_refs, key=lambda ref: ref.id):
         assert isinstance(component_ref, irast.PointerRef), \
             "expected regular PointerRef"
 
